@@ -207,7 +207,7 @@ pub fn subs() -> Vec<Sub> {
         Sub { prop: "C15", name: "exhaustive-deeper", rule: "the same streams with <= 4 Pendings in total, every delivery size spread, capped at 5*10^7 schedules per subtree (thorough)",
               kind: SubKind::Enumerate { quick: 0, thorough: n, f: exhaustive_thorough, complete_quick: false, complete_thorough: true } },
         Sub { prop: "C15", name: "random-walks", rule: "1-3 generated frames (payloads up to 70 KB), stream possibly cut anywhere, schedule drawn from the tape with up to 4 consecutive Pendings, 3 transient errors and 11 drops; distinct by (stream, poll/pending/drop counts)",
-              kind: SubKind::Random { quick: 60_000, thorough: 3_000_000, tape: 2048, f: random_walk } },
+              kind: SubKind::Random { quick: 300_000, thorough: 3_000_000, tape: 2048, f: random_walk } },
     ]
 }
 
